@@ -61,6 +61,8 @@ var c20Templates = []struct{ name, code string }{
 	{"lt-big", "r = (%s < 9007199254740994) ?? \"E\""}, {"gt-big", "r = (%s > 9007199254740992) ?? \"E\""},
 	{"le-big", "r = (%s <= 9007199254740992) ?? \"E\""}, {"ge-big-l", "r = (9007199254740994 >= %s) ?? \"E\""},
 	{"lt-negbig", "r = (-9007199254740994 < %s) ?? \"E\""}, {"neq", "r = (%s != 5) ?? \"E\""}, {"eq-float", "r = (%s == 2.5) ?? \"E\""},
+	{"repeat", "r = \"ok\"; try { r = \"ab\" * %s } catch e { r = \"E\" }"}, {"slice-lo", "r = ([7, 8, 9][%s:2]) ?? \"E\""},
+	{"str-index", "r = (\"abc\"[%s]) ?? \"E\""}, {"str-slice", "r = (\"abcd\"[%s:3]) ?? \"E\""}, {"lit-key", "r = \"ok\"; try { r = {%s: 1} } catch e { r = \"E\" }"},
 	{"slice-hi", "r = ([7, 8, 9][0:%s]) ?? \"E\""}, {"slice-cap", "r = ([7, 8, 9][0:1:%s]) ?? \"E\""},
 	{"delete-key", "t = {5: 1, \"ab\": 2}; r = \"ok\"; try { delete(t, %s); r = t } catch e { r = \"E\" }"},
 	{"eq-self", "r = (%s == v) ?? \"E\""}, {"neq-self", "r = (v != %s) ?? \"E\""}, {"deref", "r = \"ok\"; try { r = *%s } catch e { r = \"E\" }"}, {"tostr", "r = (\"\" + %s) ?? \"E\""}, {"keys-like", "r = []; try { for k, v in %s { r += v } } catch e { r = \"E\" }"},
